@@ -373,6 +373,10 @@ func (x *Exec) applyContract(ct *Contract, key string, callee *ssa.Function, sig
 	for _, c := range ct.Ensures {
 		t, err := post.evalBool(c.E)
 		if err != nil {
+			if strings.Contains(err.Error(), "unknown identifier") && !ct.Trusted {
+				// the clause talks about a local of the callee: it is proved there, the caller cannot use it
+				continue
+			}
 			return Val{}, fmt.Errorf("%s:%d: %v", c.File, c.Line, err)
 		}
 		x.sc.Assume(reach, t)
